@@ -684,8 +684,12 @@ func (s *SweepingProvider) reprovideTimeForPrefix(prefix bitstr.Key) time.Durati
 	order := bitstr.Key(key.BitString(s.order)[:len(prefix)])
 	k := prefix.Xor(order)
 	val, _ := strconv.ParseInt(string(k), 2, 64)
-	// Calculate the time offset as a fraction of the overall reprovide interval.
-	return time.Duration(int64(s.reprovideInterval) * val / maxInt)
+	// Calculate the time offset as a fraction of the overall reprovide interval:
+	// interval*val/maxInt, split as (interval/maxInt)*val + (interval%maxInt)*val/maxInt
+	// (the same value) because the plain product leaves the int64 range for
+	// long prefixes and multi-hour intervals.
+	interval := int64(s.reprovideInterval)
+	return time.Duration(interval/maxInt*val + interval%maxInt*val/maxInt)
 }
 
 // approxPrefixLen makes a few GetClosestPeers calls to get an estimate
